@@ -3,6 +3,8 @@
 #include "pk.hpp"
 
 #include <pika/execution.hpp>
+#include <pika/execution_base/this_thread.hpp>
+#include <pika/threading_base/thread_helpers.hpp>
 #include <pika/thread.hpp>
 
 #include <chrono>
@@ -58,6 +60,61 @@ namespace vh {
                 if (t.joinable()) t.join();
         }
     };
+
+    // ---------------------------------------------------------------------------------------------
+    // Polling pause for harness code that runs on a pika task and waits for another party's progress.
+    // A task that polls by yielding is immediately runnable again and, in this version of pika, can keep a
+    // task that sits in another producer's sub-queue of its worker from ever being dequeued (known finding
+    // C01 kf_yield_starvation). Harness pollers therefore *park*: they suspend and are resumed by a ticker
+    // (a plain OS thread), so that the worker is free in between. The code under test is not touched by this;
+    // its own polling (barrier::wait, spinlocks, yield_while) stays what it is.
+    struct PollSlot
+    {
+        pika::execution::detail::agent_ref ctx;
+        int state = 0;    // 0 free, 3 claimed, 1 parked, 2 being resumed
+    };
+    inline PollSlot g_poll_slots[64];
+    inline bool g_ticker_started = false, g_ticker_stop = false;
+    inline std::thread g_ticker;
+    inline void ticker_main()
+    {
+        while (!g_ticker_stop)
+        {
+            for (auto& s : g_poll_slots)
+                if (s.state == 1)
+                {
+                    s.state = 2;
+                    s.ctx.resume("harness poll ticker");
+                }
+            std::this_thread::yield();
+        }
+    }
+    inline void poll_pause(bool os)
+    {
+        if (os || !pika::threads::detail::get_self_ptr())
+        {
+            std::this_thread::yield();
+            return;
+        }
+        if (!g_ticker_started)
+        {
+            g_ticker_started = true;
+            g_ticker = std::thread(ticker_main);
+            g_ticker.detach();
+        }
+        for (auto& s : g_poll_slots)
+            if (s.state == 0)
+            {
+                s.state = 3;    // claimed (no schedule point between the test and this store)
+                s.ctx = pika::execution::this_thread::detail::agent();
+                s.state = 1;
+                s.ctx.suspend("harness poll pause");
+                s.state = 0;
+                return;
+            }
+        pika::this_thread::yield();    // no free slot: plain yield
+    }
+    inline void poll_stop() { g_ticker_stop = true; }
 
     // a pika task "sleeps" by yielding until virtual time has passed (pika::this_thread::sleep_for is
     // timed suspension, which this version of pika does not support: at_timer throws)
